@@ -271,6 +271,10 @@ def corpus():
         # clients that come now get numbers beyond 1024; they are served like anybody else, hostile ones are contained
         out.append(case_dict(kind, "tcp", False, 3, ["c1:g", "p1", "c2:g", "r2:" + frame(b"\xff\xfe\xfd").hex(), "p1", "l1",
                                                      "c3:g", "i3:t", "p1", "u1:0", "a3", "c4:g", "p4", "p1"], opts=["hifd"]))
+    # descriptor 0 is free in the server process: the first client's server-side socket gets it (in-process kinds)
+    for kind in ("pool", "threaded"):
+        out.append(case_dict(kind, "tcp", False, 2, ["c1:g", "p1", "c2:g", "r2:" + frame(b"\xff\xfe\xfd").hex(), "p1", "l1", "c3:g",
+                                                     "p3", "a2", "p1"], opts=["fd0"]))
     nexc = len(servers.BASE_EXC_NAMES)
     for kind in KINDS:
         # two small writes: an unsolicited REPLY carrying a by-reference object of an unknown class + the pre-sent EXCEPTION
